@@ -327,6 +327,21 @@ def run(tier, replay=None):
             ctx.known("%s (%d occurrences, e.g. %s)" % (listed[0]["what"], len(known_hits), known_hits[0]))
         else:
             ctx.violate("monitor", "# a note-off preceding a note-on of the same key at one tick is delivered behind it: %s\n" % known_hits[0])
+    # ---- SMPTE time division (well-formed SMF: negative frame rate in the high byte, ticks per frame in the low byte): 25 fps x 40 ticks
+    # = 1000 ticks per second, whatever the tempo; a note-off 1000 ticks in lies at 1 s, the length is 2 s
+    if not replay:
+        trk = bytes.fromhex("00903c64" + "8768803c00" + "00ff2f00")
+        smpte = b"MThd" + (6).to_bytes(4, "big") + bytes([0, 0, 0, 1, 0xE7, 0x28]) + b"MTrk" + len(trk).to_bytes(4, "big") + trk
+        sh = sq.PREFIX + ["opendata " + smpte.hex(), "total"]
+        (sio, smo), = sq.run([sh])
+        m = re.search(r"ret=(-?\d+:-?\d+)", sio[-1]) if sio and sio[-1].startswith("ret=") else None
+        got = sq.dy(m.group(1)) if m else None
+        if got is None or abs(got - 2) > Fraction(1, 1000):
+            listed = [k for k in common.load_known() if k.get("status") == "open" and k.get("property") == PROP and k.get("id") == "smpte-division"]
+            if listed and got is not None:
+                ctx.known("%s (reported length %s s, the file's is 2 s)" % (listed[0]["what"], float(got)))
+            else:
+                ctx.violate("monitor", "# a file with an SMPTE time division (25 fps x 40 ticks per frame) reports the length %s instead of 2 s\n%s\n" % (got, "\n".join(sh)))
     ndiff = sq.compare(ctx, PROP, [h for h, _ in hs], res)
     ctx.cov.update({"evaluations": sum(len(h) for h, _ in hs), "histories": len(hs), "events_delivered": nev, "disagreements": ndiff, "monitor_failures": nfail,
                     "traces_validated_against_impl": sum(1 for (h, _), (io, mo) in zip(hs, res) for k in range(len(h)) if mo[k] is not None) - ndiff,
